@@ -81,7 +81,10 @@ def plan(tier, seed):
         rec=[dict(u='rec', start=i, stop=min(n['rec'], i + 8)) for i in range(0, n['rec'], 8)],
         recx=[dict(u='recx', i=i) for i in range(n['recx'])],
         conc=[dict(u='conc', start=i, stop=min(n['conc'], i + 3)) for i in range(0, n['conc'], 3)])
-    # interleave so that round-robin sharding gives every worker a similar mix; expensive units first
+    # big entries first (one of them costs as much as a dozen small ones), then interleave so that round-robin sharding
+    # gives every worker a similar mix
+    cost = lambda u: {'hugearray': 0, 'bigarray': 1}.get(payload_spec(tier, seed, u['i'])['kind'], 2)
+    groups['payload'].sort(key=cost)
     order = ['users', 'payload', 'recx', 'conc', 'rec', 'keys']
     units = []
     while any(groups.values()):
@@ -712,14 +715,24 @@ def run_units(units, ctx):
                 res.count('units_skipped_deadline')
                 res.count('units_skipped_deadline/' + u['u'])
                 continue
+            t0, c0, w0 = time.process_time(), _children_cpu(), time.time()
             try:
                 run_unit(S, u)
             except Exception:
                 res.count('unit_harness_exceptions')
                 res.note('unit ' + json.dumps(u) + ' raised in the harness: ' + traceback.format_exc()[-700:])
+            res.count('cpu_ms/' + u['u'], int(1000 * (time.process_time() - t0)))
+            res.count('child_cpu_ms/' + u['u'], int(1000 * (_children_cpu() - c0)))
+            res.count('wall_ms/' + u['u'], int(1000 * (time.time() - w0)))
     finally:
         S.close()
     return res
+
+
+def _children_cpu():
+    import resource
+    r = resource.getrusage(resource.RUSAGE_CHILDREN)
+    return r.ru_utime + r.ru_stime
 
 
 def run_unit(S, u):
@@ -905,6 +918,7 @@ def finalize(m, tier, seed):
         concurrency=dict(groups=c.get('conc_groups', 0), distinct_groups=len(m.sets.get('conc_distinct', ())), processes=c.get('conc_processes', 0),
                          keys=c.get('conc_keys', 0), executions_logged=c.get('conc_executions', 0), caller_results_checked=c.get('conc_callers_ok', 0),
                          groups_with_killed_process=c.get('conc_groups_with_victim', 0)),
+        cost_ms=dict(worker_cpu=sub('cpu_ms/'), child_cpu=sub('child_cpu_ms/'), wall=sub('wall_ms/')),
         skipped_deadline=sub('units_skipped_deadline/'), harness_exceptions=c.get('unit_harness_exceptions', 0),
         violations_not_recorded_individually=c.get('violations_not_recorded_individually', 0))
     inc = []
